@@ -35,4 +35,67 @@ theorem unescape_escape_single (s : Bytes) : pathUnescape .single (pathEscape .s
       rw [unescape_single_cons_plain _ _ hne, ih]; rfl
     · rw [he]; simp only [List.cons_append, List.nil_append]
       rw [unescape_single_cons_esc _ _ _ ha hb, ih, hv]; rfl
+/-! ### multi-segment mode -/
+
+
+theorem unescape_multi_cons_plain (c : UInt8) (rest : Bytes) (h : c ≠ 0x25) :
+    pathUnescape .multi (c :: rest) = (pathUnescape .multi rest).map (fun r => c :: r) := by
+  have hc : (c == 0x25) = false := by simpa using h
+  match rest with
+  | [] => simp [pathUnescape, hc]
+  | [a] => simp [pathUnescape, hc]
+  | a :: b :: r => simp [pathUnescape, hc]
+
+theorem unescape_multi_cons_esc (a b : UInt8) (rest : Bytes) (ha : ishex a = true) (hb : ishex b = true)
+    (hs : isHexSlash 0x25 a b = false) :
+    pathUnescape .multi (0x25 :: a :: b :: rest) = (pathUnescape .multi rest).map (fun r => (unhex a <<< 4 ||| unhex b) :: r) := by
+  simp [pathUnescape, ha, hb, hs]
+
+theorem unescape_multi_cons_slash (rest : Bytes) :
+    pathUnescape .multi (0x25 :: 0x32 :: 0x46 :: rest) = (pathUnescape .multi rest).map (fun r => 0x25 :: 0x32 :: 0x46 :: r) := by
+  have h1 : ishex 0x32 = true := by decide
+  have h2 : ishex 0x46 = true := by decide
+  have h3 : isHexSlash 0x25 0x32 0x46 = true := by decide
+  simp [pathUnescape, h1, h2, h3]
+
+set_option maxRecDepth 100000 in
+theorem esc_not_slash (c : UInt8) (hc : c ≠ 0x2F) :
+    isHexSlash 0x25 (upperhex (c >>> 4)) (upperhex (c &&& 15)) = false := by
+  revert c; apply forall_uint8; decide +kernel
+
+theorem unescape_multi_escapeByte (c : UInt8) (rest : Bytes) (hc : c ≠ 0x2F) :
+    pathUnescape .multi (escapeByte c ++ rest) = (pathUnescape .multi rest).map (fun r => c :: r) := by
+  rcases escapeByte_cases c with ⟨_, he, hne⟩ | ⟨he, ha, hb, hv⟩
+  · rw [he]; simp only [List.singleton_append]
+    exact unescape_multi_cons_plain _ _ hne
+  · rw [he]; simp only [List.cons_append, List.nil_append]
+    rw [unescape_multi_cons_esc _ _ _ ha hb (esc_not_slash c hc), hv]
+
+/-- `pathUnescape ∘ pathEscape` in multi-segment mode, for a value without `/`. -/
+theorem unescape_escape_multi (s : Bytes) (h : (0x2F : UInt8) ∉ s) :
+    pathUnescape .multi (pathEscape .multi s) = some (canonSlash s) := by
+  fun_induction pathEscape .multi s with
+  | case1 => simp [pathUnescape, canonSlash]
+  | case2 c =>
+    have := unescape_multi_escapeByte c [] (by intro hc; apply h; simp [hc])
+    simpa [pathUnescape, canonSlash] using this
+  | case3 c a ih =>
+    have hc : c ≠ 0x2F := by intro hc; apply h; simp [hc]
+    rw [unescape_multi_escapeByte c _ hc, ih (by intro hm; apply h; simp at hm ⊢; simp [hm])]
+    simp [canonSlash]
+  | case4 c a b rest hcond ih =>
+    simp at hcond
+    have hr : (0x2F : UInt8) ∉ rest := by intro hm; apply h; simp [hm]
+    have hcab := hcond
+    unfold isHexSlash at hcab
+    simp at hcab
+    rw [unescape_multi_cons_slash, ih hr]
+    simp [canonSlash, hcond]
+  | case5 c a b rest hcond ih =>
+    simp at hcond
+    have hc : c ≠ 0x2F := by intro hc; apply h; simp [hc]
+    have hr : (0x2F : UInt8) ∉ a :: b :: rest := by intro hm; apply h; simp at hm ⊢; simp [hm]
+    rw [unescape_multi_escapeByte c _ hc, ih hr]
+    simp [canonSlash, hcond]
+
 end Vanguard
